@@ -7,11 +7,12 @@ from docs/source/dev/semantics.rst, derived-semantics.rst and docs/USAGE.md; it 
 with Python's `ast`, keeps the documented state (environment, list cells, active context
 as an explicit parameter) and rounds through the C01 rounding oracle).
 
-Space, three parts, all enumerated (no sampling):
+Space, four parts, all enumerated (no sampling):
 
 T  operator table: every expression tree of depth <= 1 (one operator over the leaves
-   u, v, us and small integer literals) x ALL ordered pairs (u, v) of the value pool x a
-   list x every context of the caller pool.
+   u, v, us and small integer literals; plus every binary arithmetic / comparison / min /
+   max row with an exact literal 0 or 0.1 as one operand) x ALL ordered pairs (u, v) of
+   the 17-value pool x lists x every context of the caller pool.
 E  expressions: every tree of depth <= 2 per operator row (children = all depth <= 1
    trees of the child's type; quick: at most one non-leaf child per root, thorough: at
    most two) x the input tuples x every context of the caller pool (5 contexts).
@@ -23,6 +24,9 @@ S  statements: every skeleton of <= N statement nodes (assign, tuple pattern, au
    6 iterables, 5 contexts incl. REAL, a global, a constructor with arguments computed
    from 1/3 and from a run-time length), a probe `ps[j] = 1 / 3` after each compound
    statement x input tuples x caller context in {absent, a small RTZ float, REAL}.
+D  call graphs f -> g -> h: every choice of declared context (none / a float / REAL) for
+   each of the three functions x every choice of `with` block (none / 2 contexts) around
+   each of the two call sites (243 programs), h writing a list f reads afterwards.
 
 Oracle: returned value deep (exact rational equality, zero sign, NaN-ness, list/tuple
 shape, booleans) or "both raise" (error type compared only where the docs name it).
@@ -44,6 +48,7 @@ from ..model.xreal import X
 
 import fpy2 as fp
 from fpy2.number import Float, RealFloat, Context
+from fpy2.interpret import get_default_interpreter
 
 Q = Fraction
 
@@ -209,8 +214,9 @@ class Check(BaseCheck):
     rule = ('T: all depth<=1 expression trees x all ordered (u,v) pairs of the 17-value pool x 5 caller contexts; '
             'E: all depth<=2 trees per operator row (bounded number of non-leaf children) x input tuples x 5 contexts; '
             'S: all statement skeletons of <= N nodes, holes filled by fixed rotations, x input tuples x 3 caller '
-            'contexts.  nontrivial = the reference evaluation performed at least one inexact rounding (the value '
-            'depends on which context was active) or got stuck')
+            'contexts; D: all 243 declared-context / call-site-with assignments of a 3-function call chain x input '
+            'tuples x 3 caller contexts.  nontrivial = the reference evaluation performed at least one inexact '
+            'rounding (so the value depends on which context was active) or got stuck')
     assumptions = [
         'mc.model.rounding is the rounding function of each pool context (tied to the real contexts by C01 and by '
         'this check\'s selfcheck on a grid)',
@@ -231,10 +237,10 @@ class Check(BaseCheck):
         # E part: a fixed core of input tuples (+ 2 more rotated by the seed in the quick tier; all of
         # them for the depth<=1 trees, which the T part additionally runs on all (u, v) pairs)
         n = len(self.inputs)
-        core = list(range(0, n, 2))
+        core = [0, 2, 3, 5, 7, 9, 10, 14, 15, 17, 18, 19]
         rest = [i for i in range(n) if i not in core]
-        extra = [rest[(2 * seed) % len(rest)], rest[(2 * seed + 1) % len(rest)]]
-        self.e_inputs = [self.inputs[i] for i in core + extra]
+        extra = [rest[(2 * seed) % len(rest)], rest[(2 * seed + 1) % len(rest)]] if self.quick else [1, 13]
+        self.e_inputs = [self.inputs[i] for i in sorted(set(core + extra))]
 
     def bounds(self):
         return {'expr_depth': 2, 'expr_nonleaf_children': self.level, 'stmt_nodes': self.sizes[-1],
@@ -265,11 +271,17 @@ class Check(BaseCheck):
     # ---- shards -----------------------------------------------------------------
     def shards(self):
         sh = [('T', i, 8) for i in range(8)] + [('D', i, 4) for i in range(4)]
-        ne = 24 if self.quick else 96
+        ne = 24 if self.quick else 64
         sh += [('E', i, ne) for i in range(ne)]
         for n in self.sizes:
             m = {1: 1, 2: 1, 3: 8, 4: 96}[n]
-            for rot in self.rots:
+            if n <= 3:
+                rots = list(self.rots)
+                if self.quick and n <= 2:
+                    rots.append(1 + self.seed % 3)      # the seed only adds a slice on top of the fixed core
+            else:
+                rots = [0]
+            for rot in rots:
                 sh += [('S', n, rot, i, m) for i in range(m)]
         return sh
 
@@ -289,6 +301,10 @@ class Check(BaseCheck):
     def load_batch(self, r, header, funcs):
         """funcs: list of (name, text).  -> (module-like dict name->Function, Program)"""
         src = header + '\n'.join(t for _, t in funcs)
+        # the default interpreter caches every compiled function for ever: drop the previous batch
+        cache = getattr(get_default_interpreter(), 'func_cache', None)
+        if cache is not None:
+            cache.clear()
         try:
             mod = load_source(src)
             real = {n: getattr(mod, n) for n, _ in funcs}
@@ -327,16 +343,18 @@ class Check(BaseCheck):
         if bad is None:
             return
         kind, what = bad
-        sig = {'layer': layer, 'row': row, 'kind': kind, 'what': what if kind != 'returns-where-stuck' else ''}
+        op = row.split('/')[0]
+        sig = {'layer': layer, 'row': row, 'op': 'minmax' if op in ('min', 'max') else op, 'kind': kind,
+               'what': what if kind != 'returns-where-stuck' else ''}
         case = {'layer': layer, 'source': src_min(src, fname, layer), 'fname': fname, 'args': inp, 'ctx': ctext,
                 'text': text}
         r.violate(sig, case, f'{text}\nargs={inp} ctx={ctext}\nreference: {show_obs(ref)}\nfpy2     : {show_obs(got)}')
 
     # ---- T / E ------------------------------------------------------------------
     def run_table(self, r, i, m):
-        trees = G.n_depth1() + G.b_depth1() + G.l_depth1()
+        trees = G.n_depth1() + G.b_depth1() + G.l_depth1() + G.literal_depth1()
         trees = [(row, t) for k, (t, row) in enumerate(trees) if k % m == i]
-        lists = [['1', '1/3', '2']] if self.quick else [['1', '1/3', '2'], [], ['-0'], ['nan', '3']]
+        lists = [['1/3', '1', '2'], ['1/10']] + ([] if self.quick else [[], ['-0', '3'], ['nan', '3', '1/3']])
         for b in range(0, len(trees), BATCH):
             chunk = trees[b:b + BATCH]
             funcs = [(f'e{k}', f'@fp.fpy\ndef e{k}(u, v, us):\n    return {t}\n') for k, (_, t) in enumerate(chunk)]
